@@ -308,11 +308,24 @@ Definition run_twin (c impl : sexp) : sexp :=
   let frag := c18_fragment tc in
   let clean := clean_path (rq_path req) in
   let unamb := unambiguous O tc req in
+  (* the premises of Props.C18_agree (the proved positive half), evaluated on this case *)
+  let agree_hyps :=
+    match detect_web_service O (tokenize (rq_path req)) (t_services t0), detect_dispatcher O (rq_path req) (t_services t0) with
+    | Some w, Some (w', _) =>
+        str_eqb (s_root w) (s_root w') && sexp_eqb (Lst (map (fun r => I (r_id r)) (s_routes w))) (Lst (map (fun r => I (r_id r)) (s_routes w')))
+        && forallb (wf_route w) (s_routes w)
+        && tokens_agree (s_root w) && forallb (fun r => tokens_agree (r_rel r)) (s_routes w)
+        && forallb (jsr_names_agree w) (s_routes w)
+        && c18_service_ok w && c18_clean (rq_path req) && c18_chain O w req
+    | None, None => true
+    | _, _ => false
+    end in
   Lst [ Lst [routed_obs tc xc; routed_obs tj xj];
         Lst [ verdict "c18_routers_agree" (implb frag (sexp_eqb (sx_nth 0 impl) (sx_nth 1 impl))) ];
         A (L (class_of xc));
         Lst [ verdict "kf:K-C18-1" (negb unamb); verdict "kf:K-C18-2" (negb clean);
-              verdict "in_fragment" frag; verdict "hypotheses_of_C18_partial" (frag && clean && unamb) ] ].
+              verdict "in_fragment" frag; verdict "hypotheses_of_C18_partial" (frag && clean && unamb);
+              verdict "hypotheses_of_C18_agree" agree_hyps ] ].
 
 (* ---- domain "perm" (C03): (oracles table request perms), impl = (obs of the base order, obs per permutation) ---- *)
 Definition apply_perm (t : table) (p : sexp) : table :=
